@@ -88,6 +88,13 @@ func (b *Built) fillMsg(dst reflect.Value, m *Message, v *Val) {
 	}
 }
 
+// GoField builds the Go value of field f alone (its Go field type) from v.
+func (b *Built) GoField(f *Field, v *Val) reflect.Value {
+	dst := reflect.New(b.goFieldType(f)).Elem()
+	b.fillField(dst, f, v)
+	return dst
+}
+
 // fillOne sets a slot of kind k (scalar or message, possibly by pointer).
 func (b *Built) fillOne(dst reflect.Value, k Kind, msg int, ptr bool, v *Val) {
 	if k != KMsg {
@@ -351,6 +358,18 @@ func (b *Built) fillDyn(d *dynamicpb.Message, mi int, v *Val) {
 	}
 }
 
+// FieldIsZero reports whether field value fv of field f is default (empty
+// container, nil or all-zero message, zero scalar; -0 is not zero).
+func (s *Schema) FieldIsZero(f *Field, fv *Val) bool {
+	switch {
+	case f.K == KMap || f.Rep:
+		return len(fv.L) == 0
+	case f.K == KMsg:
+		return s.IsZero(&s.Msgs[f.Msg], fv)
+	}
+	return isZeroScalar(f.K, fv)
+}
+
 // IsZero reports whether message value v is entirely default (recursively;
 // nil / empty containers, nil or all-zero sub-messages).
 func (s *Schema) IsZero(m *Message, v *Val) bool {
@@ -358,21 +377,8 @@ func (s *Schema) IsZero(m *Message, v *Val) bool {
 		return true
 	}
 	for i := range m.Fields {
-		f := &m.Fields[i]
-		fv := &v.L[i]
-		switch {
-		case f.K == KMap || f.Rep:
-			if len(fv.L) != 0 {
-				return false
-			}
-		case f.K == KMsg:
-			if !s.IsZero(&s.Msgs[f.Msg], fv) {
-				return false
-			}
-		default:
-			if !isZeroScalar(f.K, fv) {
-				return false
-			}
+		if !s.FieldIsZero(&m.Fields[i], &v.L[i]) {
+			return false
 		}
 	}
 	return true
@@ -635,21 +641,8 @@ func DiffsString(ds []Diff) string {
 func (s *Schema) NonZeroFields(m *Message, v *Val) int {
 	n := 0
 	for i := range m.Fields {
-		f := &m.Fields[i]
-		fv := &v.L[i]
-		switch {
-		case f.K == KMap || f.Rep:
-			if len(fv.L) != 0 {
-				n++
-			}
-		case f.K == KMsg:
-			if !s.IsZero(&s.Msgs[f.Msg], fv) {
-				n++
-			}
-		default:
-			if !isZeroScalar(f.K, fv) {
-				n++
-			}
+		if !s.FieldIsZero(&m.Fields[i], &v.L[i]) {
+			n++
 		}
 	}
 	return n
